@@ -16,10 +16,10 @@ STUBS = ["Series/DataFrame.sample(n, random_state): any n distinct present rows;
 def templates(tier, seed):
     ts = []
     for N in ((2, 3) if tier == "quick" else (1, 2, 3, 4)):
-        for shape in ("series", "frame", "frame_wide", "model"):
+        for shape in ("series", "series_nulls", "frame", "frame_wide", "model"):
             for k in range(0, 4):
                 for which in itertools.combinations(("head", "tail", "sample"), k):
-                    if tier == "quick" and (N == 3 and (len(which) != 2 or shape in ("frame_wide", "model"))):
+                    if tier == "quick" and (N == 3 and (len(which) != 2 or shape in ("frame_wide", "model", "series_nulls"))):
                         continue
                     ts.append(Template(f"{shape}/{'+'.join(which) or 'none'}/N={N}", t_sub, (shape, N, list(which))))
     t_idx = tmpl.pick(tmpl.subsample_index_case, LABELS)
